@@ -10,6 +10,7 @@ import re
 from ..effects import Effects, outer_field
 from ..engine import site_str
 from ..ir import AnalysisBroken, walk, strip, sym_paths
+from .C12 import _expr_txt
 from .common import insts, paths_of
 from . import C04
 
@@ -43,6 +44,7 @@ def check(ctx, F):
         ctx.note("unit %s compiled without TRANSITION_HISTORY: only C09.change-predicate evaluated" % F.label)
     E = Effects(F)
     check_change_predicate(ctx, F, E)
+    check_append(ctx, F, "C09.record")
     if has_history(F):
         check_record(ctx, F)
         check_pin(ctx, F, E)
@@ -93,6 +95,28 @@ def check_change_predicate(ctx, F, E):
                 ctx.violation("C09.change-predicate", site + "/" + f, "%s (%s)" % (site, F.floc(ne[0])),
                               "applyRequest may write registry.%s but the change test `registry != backup` does not compare it: such a request is applied "
                               "without being guarded or recorded, and a vetoed round cannot be told from an unchanged one" % f, {"field": f})
+
+
+def check_append(ctx, F, rule):
+    """DynamicArrayT::operator+= appends: every item it stores goes through emplace() or to a slot whose index involves _count;
+    a store at a _count-free index overwrites what the array already holds (the transitions approved in an earlier round of the step)"""
+    for fid, b in insts(F, "DynamicArrayT", {"operator+="}):
+        site = "DynamicArrayT::operator+="
+        stores = []
+        emplaces = 0
+        for x in walk(b["body"]):
+            if x.get("k") == "call" and "f" in x and F.fn(x["f"])["name"] == "emplace":
+                emplaces += 1
+            elif x.get("k") == "new" and x.get("place"):
+                stores.append(_expr_txt(x["place"][0]))
+            elif x.get("k") == "asg" and "_items" in _expr_txt(x["lhs"]):
+                stores.append(_expr_txt(x["lhs"]))
+        ctx.instance(rule, site, {"function": site, "loc": F.floc(fid), "emplace_calls": emplaces, "direct_stores": stores})
+        bad = [t for t in stores if "_count" not in t]
+        if bad or (not emplaces and not stores):
+            ctx.violation(rule, site, "%s (%s)" % (site, F.floc(fid)),
+                          "operator+= stores items at %s: not an append behind the existing _count items (the record of an earlier round is overwritten)" % (
+                              bad or "no slot at all"), {})
 
 
 def _reach(F, fid):
